@@ -163,7 +163,7 @@ fn gen_table_case(rng: &mut Rng, p: &Params, out: &mut Vec<String>) {
         } else if roll < 81 {
             out.push("all".into());
         } else if roll < 89 {
-            max_ever = max_ever.max(cur);
+            max_ever = max_ever.max(cur.saturating_sub(1));
             out.push(format!("commit {}", cur));
             out.push("dump".into());
         } else if roll < 92 {
@@ -269,7 +269,9 @@ impl Ref {
         self.log.entry(k.to_string()).or_default().push((b, v));
     }
     fn commit(&mut self, b: u64) {
-        self.max_ever = self.max_ever.max(b);
+        // a commit at block b only drops histories whose newest version is more than W below b:
+        // it narrows the window like a write at b - 1 (the engine commits at "next height")
+        self.max_ever = self.max_ever.max(b.saturating_sub(1));
         self.durable = self.log.clone();
     }
     fn clear(&mut self) {
